@@ -1059,3 +1059,11 @@ package types
 //@   for C16
 //@   modifies *
 //@   atcall EncodeToBytes requires [rootDroppedOnlyWhenEmptyRoot] dyntype(val) == typeid(SlimAccount) && unbox(val, SlimAccount).Nonce == account.Nonce && unbox(val, SlimAccount).Balance == account.Balance && (account.Root == EmptyRootHash ==> len(unbox(val, SlimAccount).Root) == 0) && (account.Root != EmptyRootHash ==> len(unbox(val, SlimAccount).Root) == 32 && content(unbox(val, SlimAccount).Root) == content(account.Root))
+
+// ---------------------------------------------------------------- C18: decoding a block is a function of the message
+// BlockFromProto converts and validates (ValidateBasic) a wire block; whether it succeeds depends on the
+// message alone (trusted: the conversion is deterministic and writes only what it allocates).
+//@ spec func decodesOK(bp *kproto.Block) bool
+//@ trusted func BlockFromProto(bp *kproto.Block, hasher TrieHasher) (r *Block, err error)
+//@   modifies nothing
+//@   ensures (err == nil <==> decodesOK(bp)) && (err == nil ==> r != nil)
